@@ -162,13 +162,29 @@ def run_lemmas(ctx, lemmas, tag, nshards=None):
 # translate
 # ----------------------------------------------------------------------------
 
+def committed_text(name):
+    """the committed version of coq/Generated/<name> (what the unmodified repository generates), if git has one"""
+    import subprocess
+    try:
+        p = subprocess.run(['git', '-C', C.VERIF, 'show', 'HEAD:coq/Generated/' + name], stdout=subprocess.PIPE,
+                           stderr=subprocess.DEVNULL, text=True, timeout=30)
+        return p.stdout if p.returncode == 0 and p.stdout.strip() else None
+    except Exception:  # noqa: BLE001
+        return None
+
+
 def translate(ctx):
     texts, info = T.generate(C.REPO)
     for name, text in texts.items():
         if text is not None:
             info.setdefault('changed', {})[name] = C.write_if_changed(os.path.join(C.COQ, 'Generated', name), text)
         else:
+            # unrecognised source: do not leave a file generated from some other tree in place -- fall back to the
+            # committed file (else keep what is there); the correspondence run alone then ties model to code
             info.setdefault('kept', []).append(name)
+            old = committed_text(name)
+            if old is not None:
+                info.setdefault('restored_committed', {})[name] = C.write_if_changed(os.path.join(C.COQ, 'Generated', name), old)
     if not info['recognised']:
         info['note'] = ('source shape not recognised for %s; the previous generated file is kept and the correspondence '
                         'run alone ties model to code' % info.get('kept'))
@@ -234,8 +250,10 @@ def gen_gcirc(ctx):
     cases = []   # dict(kind, units, pts, base_id, sep)
     reps = ctx.n(1, 6)
     bid = 0
-    for sep in SEPS:
-        for cls in ('generic', 'polar', 'equator'):
+    for si, sep in enumerate(SEPS):
+        # quick tier: every separation with a generic pair, poles and equator alternate; thorough: all three
+        classes = ('generic', 'polar', 'equator') if ctx.thorough else ('generic', ('polar', 'equator')[(si + ctx.seed) % 2])
+        for cls in classes:
             for _ in range(reps):
                 if cls == 'generic':
                     ra, dec = C.dyadic(rng, 0, 360, 8), C.dyadic(rng, -80, 80, 8)
@@ -533,7 +551,7 @@ def check_munu(ctx, have_spec):
         for k in range(n):
             vals = (r['lon1'][k], r['lat1'][k], r['lon2'][k], r['lat2'][k])
             if not all(isnum(v) for v in vals):
-                viol('C18:munu:%s:nan' % kind,
+                viol('C18:munu:pole-nan',
                      '%s round trip returns a non-finite coordinate: stripe %d, (%r, %r) -> (%r, %r) -> (%r, %r)'
                      % ('ICRS->munu->ICRS' if kind == 'r2m' else 'munu->ICRS->munu', st, lon[k], lat[k], *vals),
                      {'kind': 'failing-input', 'direction': kind, 'input': {'stripe': st, 'lon': lon[k], 'lat': lat[k]},
@@ -581,7 +599,7 @@ def check_munu(ctx, have_spec):
                       'images': [[r['lon1'][k], r['lat1'][k]], [r['lon1'][k + 1], r['lat1'][k + 1]]]}, True)
         if st in encl_stripes:
             cand = [k for k in range(n) if vin[k] is not None]
-            for k in cand[:2] + rng.sample(cand, min(len(cand), ctx.n(3, 10))):
+            for k in cand[:1] + rng.sample(cand, min(len(cand), ctx.n(2, 10))):
                 encl.append((kind, st, lon[k], lat[k], r['lon1'][k], r['lat1'][k]))
     lemmas = [munu_lemma('m%d' % k, *e) for k, e in enumerate(encl)]
     # the documented inclination used in the lemmas is Spec.incl_doc
@@ -677,7 +695,7 @@ def check_angles(ctx, have_spec):
                 dphi = (b[0] - p[0] + 180.0) % 360.0 - 180.0
                 if abs(dphi) > 1e-8 or abs(b[1] - p[1]) > 1e-6 * abs(p[1]) + 1e-8:
                     viol('C18:angles:roundtrip:lat=%s' % lat, 'x_to_angles(angles_to_x(%r)) = %r (latitude=%s)' % (p, b, lat), rep, True)
-                if len(encl) < ctx.n(24, 120) and rng.random() < 0.2:
+                if len(encl) < ctx.n(16, 120) and rng.random() < 0.2:
                     encl.append((lat, p[0], p[1], x))
         else:
             for x, a, b in zip(job['x'], r['a'], r['back']):
